@@ -488,8 +488,9 @@ func genC16(out, tier string, rng *rand.Rand) {
 	gckey := func(i int) []byte { return []byte(fmt.Sprintf("g%03d", i)) }
 	for i := 0; i < nrows; i++ {
 		ms := []Mutation{{Kind: "set", Fam: "cf", Q: []byte("a"), Ts: 5000000000, V: []byte("new")}, {Kind: "set", Fam: "cf", Q: []byte("a"), Ts: 4000000000, V: []byte("old")}}
-		if i%7 == 0 {
-			ms = []Mutation{{Kind: "set", Fam: "cf", Q: []byte("a"), Ts: 1000, V: []byte("ancient")}} // row disappears
+		if i%7 == 0 || i == 99 || i == 199 {
+			// the row disappears (also the last row of each GC batch)
+			ms = []Mutation{{Kind: "set", Fam: "cf", Q: []byte("a"), Ts: 1000, V: []byte("ancient")}}
 		}
 		if i%5 == 0 {
 			ms = append(ms, Mutation{Kind: "set", Fam: "cf2", Q: []byte("keep"), Ts: 1000, V: []byte("k")})
@@ -506,14 +507,16 @@ func genC16(out, tier string, rng *rand.Rand) {
 			return Call{Req: Req{Kind: "mutate", Table: concTable, Key: gckey(row), Muts: []Mutation{{Kind: "set", Fam: "cf", Q: []byte("a"), Ts: 6000000000, V: []byte(fmt.Sprint("raced", variant))}, {Kind: "set", Fam: "cf", Q: []byte("b"), Ts: 1000, V: []byte("condemned-on-arrival")}}}, Now: now}
 		case 1:
 			return Call{Req: Req{Kind: "rmw", Table: concTable, Key: gckey(row), Rules: []Rule{{Kind: "append", Fam: "cf", Q: []byte("a"), V: []byte("+r")}}}, Now: now}
+		case 3:
+			return Call{Req: Req{Kind: "mutate", Table: concTable, Key: gckey(row), Muts: []Mutation{{Kind: "delrow"}}}, Now: now}
 		}
 		return Call{Req: Req{Kind: "mutate", Table: concTable, Key: []byte(fmt.Sprintf("g%03dx", row)), Muts: []Mutation{{Kind: "set", Fam: "cf", Q: []byte("a"), Ts: 6000000000, V: []byte("brand-new-row")}}}, Now: now}
 	}
 	var jobs []concJob
 	for _, en := range engines() {
 		for handover := 1; handover <= 2; handover++ {
-			for kind := 0; kind < 3; kind++ {
-				for _, row := range []int{20, 99, 100, 150, 199, 200, 229} {
+			for kind := 0; kind < 4; kind++ {
+				for _, row := range []int{20, 98, 99, 100, 101, 150, 198, 199, 200, 229} {
 					if tier == "quick" && (row+kind+handover)%2 == 0 {
 						continue
 					}
